@@ -40,12 +40,16 @@ func (s *CDX) Serialize(bom *sbom.Document, _ *native.SerializeOptions, _ interf
 	// Load the context with the CDX value. We initialize a context here
 	// but we should get it as part of the method to capture cancelations
 	// from the CLI or REST API.
+	if bom == nil {
+		return nil, errors.New("document is nil, unable to serialize to CycloneDX")
+	}
+
 	state := newSerializerCDXState()
 	ctx := context.WithValue(context.Background(), stateKey, state)
 
 	doc := cdx.NewBOM()
-	doc.SerialNumber = bom.Metadata.Id
-	ver, err := strconv.Atoi(bom.Metadata.Version)
+	doc.SerialNumber = bom.GetMetadata().GetId()
+	ver, err := strconv.Atoi(bom.GetMetadata().GetVersion())
 	// TODO(deprecation): If version does not parse to int, there's data loss here.
 	if err == nil {
 		doc.Version = ver
@@ -59,6 +63,11 @@ func (s *CDX) Serialize(bom *sbom.Document, _ *native.SerializeOptions, _ interf
 	doc.Metadata = &metadata
 	doc.Components = &[]cdx.Component{}
 	doc.Dependencies = &[]cdx.Dependency{}
+
+	// A document without a node list is an empty (nodeless) document
+	if bom.NodeList == nil {
+		return doc, nil
+	}
 
 	// Check if the protobom has no root elements:
 	if bom.NodeList.RootElements == nil || len(bom.NodeList.RootElements) == 0 {
@@ -91,12 +100,16 @@ func (s *CDX) Serialize(bom *sbom.Document, _ *native.SerializeOptions, _ interf
 		return nil, err
 	}
 
-	for _, dt := range bom.Metadata.DocumentTypes {
+	for _, dt := range bom.GetMetadata().GetDocumentTypes() {
 		var lfc cdx.Lifecycle
 
+		if dt == nil {
+			continue
+		}
+
 		if dt.Type == nil {
-			lfc.Name = *dt.Name
-			lfc.Description = *dt.Description
+			lfc.Name = dt.GetName()
+			lfc.Description = dt.GetDescription()
 		} else {
 			lfc.Phase, err = sbomTypeToPhase(dt)
 			if err != nil {
@@ -111,9 +124,9 @@ func (s *CDX) Serialize(bom *sbom.Document, _ *native.SerializeOptions, _ interf
 		var authors []cdx.OrganizationalContact
 		for _, bomauthor := range bom.GetMetadata().GetAuthors() {
 			authors = append(authors, cdx.OrganizationalContact{
-				Name:  bomauthor.Name,
-				Email: bomauthor.Email,
-				Phone: bomauthor.Phone,
+				Name:  bomauthor.GetName(),
+				Email: bomauthor.GetEmail(),
+				Phone: bomauthor.GetPhone(),
 			})
 		}
 		metadata.Authors = &authors
@@ -123,8 +136,8 @@ func (s *CDX) Serialize(bom *sbom.Document, _ *native.SerializeOptions, _ interf
 		var tools []cdx.Tool //nolint:staticcheck
 		for _, bomtool := range bom.GetMetadata().GetTools() {
 			tools = append(tools, cdx.Tool{ //nolint:staticcheck // Tool is needed for older cdx versions
-				Name:    bomtool.Name,
-				Version: bomtool.Version,
+				Name:    bomtool.GetName(),
+				Version: bomtool.GetVersion(),
 			})
 		}
 		metadata.Tools = &cdx.ToolsChoice{
@@ -151,7 +164,7 @@ func (s *CDX) Serialize(bom *sbom.Document, _ *native.SerializeOptions, _ interf
 
 // sbomTypeToPhase converts a SBOM document type to a CDX lifecycle phase
 func sbomTypeToPhase(dt *sbom.DocumentType) (cdx.LifecyclePhase, error) {
-	switch *dt.Type {
+	switch dt.GetType() {
 	case sbom.DocumentType_BUILD:
 		return cdx.LifecyclePhaseBuild, nil
 	case sbom.DocumentType_DESIGN:
@@ -167,10 +180,10 @@ func sbomTypeToPhase(dt *sbom.DocumentType) (cdx.LifecyclePhase, error) {
 	case sbom.DocumentType_DISCOVERY:
 		return cdx.LifecyclePhaseDiscovery, nil
 	case sbom.DocumentType_OTHER:
-		return cdx.LifecyclePhase(strings.ToLower(*dt.Name)), nil
+		return cdx.LifecyclePhase(strings.ToLower(dt.GetName())), nil
 	}
 	// TODO(option): Dont err but assign to type OTHER
-	return "", fmt.Errorf("unknown document type %s", *dt.Name)
+	return "", fmt.Errorf("unknown document type %s", dt.GetName())
 }
 
 // clearAutoRefs
@@ -198,7 +211,7 @@ func (s *CDX) componentsMaps(ctx context.Context, bom *sbom.Document) error {
 		return fmt.Errorf("reading state: %w", err)
 	}
 
-	for _, n := range bom.NodeList.Nodes {
+	for _, n := range bom.GetNodeList().GetNodes() {
 		comp := s.nodeToComponent(n)
 		if comp == nil {
 			// Error? Warn?
@@ -218,8 +231,11 @@ func (s *CDX) dependencies(ctx context.Context, bom *sbom.Document) ([]cdx.Depen
 		return nil, fmt.Errorf("reading state: %w", err)
 	}
 
-	for _, e := range bom.NodeList.Edges {
+	for _, e := range bom.GetNodeList().GetEdges() {
 		e := e
+		if e == nil {
+			continue
+		}
 		if _, ok := state.addedDict[e.From]; ok {
 			continue
 		}
@@ -338,6 +354,9 @@ func (s *CDX) nodeToComponent(n *sbom.Node) *cdx.Component {
 
 	if n.ExternalReferences != nil {
 		for _, er := range n.ExternalReferences {
+			if er == nil {
+				continue
+			}
 			cdxRef := cdx.ExternalReference{
 				URL:     er.Url,
 				Comment: er.Comment,
@@ -385,7 +404,7 @@ func (s *CDX) nodeToComponent(n *sbom.Node) *cdx.Component {
 		oe := cdx.OrganizationalEntity{
 			Name: nodesupplier.GetName(),
 		}
-		if nodesupplier.Contacts != nil {
+		if nodesupplier.GetContacts() != nil {
 			var contacts []cdx.OrganizationalContact
 			for _, nodecontact := range nodesupplier.GetContacts() {
 				newcontact := cdx.OrganizationalContact{
